@@ -46,6 +46,23 @@ Definition s_diff (l : list K) (os : list operand) : list K := filter (fun x => 
 Definition s_symdiff (l : list K) (o : operand) : list K :=
   filter (fun x => negb (opd_mem x o)) l ++ uniq (filter (fun x => negb (l_mem x l)) (o_elems o)).
 
+(* comparisons: Python set semantics for <= < >= > ; == is list equality against another IndexedSet
+   and set equality against anything else (IndexedSet's documented __eq__) *)
+Definition subset_b (a b : list K) : bool := forallb (fun x => l_mem x b) a.
+Definition s_eq (l : list K) (o : operand) : bool :=
+  if o_iset o then lK_eqb l (o_elems o)
+  else subset_b l (o_elems o) && subset_b (o_elems o) l.
+Definition s_cmp (k : cmpop) (l : list K) (o : operand) : bool :=
+  let e := o_elems o in
+  match k with
+  | CEq => s_eq l o
+  | CNe => negb (s_eq l o)
+  | CLe => subset_b l e
+  | CLt => subset_b l e && negb (subset_b e l)
+  | CGe => subset_b e l
+  | CGt => subset_b e l && negb (subset_b l e)
+  end.
+
 (* operations with explicit operands *)
 Definition spec_step1 (l : list K) (o : op) : list K * res ret :=
   match o with
@@ -95,6 +112,7 @@ Definition spec_step1 (l : list K) (o : op) : list K * res ret :=
   | Reversed => (l, Ok (RList (rev l)))
   | Snapshot => (l, Ok (RSnap l l l (rev l) (seq 0 (length l))))
   | SelfOp _ => (l, Raise (OtherExn 11))
+  | Cmp k o => (l, Ok (RBool (s_cmp k l o)))
   end.
 
 (* an operand that is the set itself is an IndexedSet holding the same items *)
@@ -115,6 +133,7 @@ Definition valid_op (l : list K) (o : op) : bool :=
   | Pop (Some i) | GetItem i =>
       match norm_index (length l) i with Some _ => true | None => false end
   | Slice _ _ (Some 0) => false
+  | Cmp (CLe | CLt | CGe | CGt) o => nodupb (o_elems o)      (* the other side is a set *)
   | _ => true
   end.
 
